@@ -49,6 +49,11 @@ impl PlainYearMonth {
         duration: &Duration,
         overflow: ArithmeticOverflow,
     ) -> TemporalResult<Self> {
+        // Units smaller than a month cannot be added to a year-month.
+        if duration.weeks() != 0.0 || duration.days() != 0.0 {
+            return Err(TemporalError::range()
+                .with_message("Weeks and days cannot be added to a PlainYearMonth."));
+        }
         // Potential TODO: update to current Temporal specification
         let partial = PartialDate::try_from_year_month(self)?;
 
